@@ -212,11 +212,11 @@ def cp_apr_printing(E, alg, R, iters, sym):
     _same_apr(E, Ma, oa, Mb, ob_, "printitn 0 vs 1")
 
 
-@ob("C18", params=[dict(alg=a, R=1, sym="w", inner=i) for a in ("mu", "pdnr", "pqnr") for i in (1, 2)], max_paths=6000, wall_s=300, validate=False, canon=True,
-    bounds="CP-APR (MU / PDNR / PQNR), 2x2 count data with an empty row held dense and sparse; rank-1 guess with concrete positive factors and weights scaled by ONE symbolic "
-           "positive number w; 1 outer iteration, 2 inner iterations; log uninterpreted; canonical rational functions")
-def cp_apr_dense_vs_sparse(E, alg, R, sym, inner):
-    """CP-APR on a dense tensor and on the sparse tensor holding the same array: same model, KKT history, inner iteration counts, objective"""
+_DVS_BOUNDS = ("CP-APR, 2x2 count data with an empty row held dense and sparse; rank-1 guess with concrete positive factors and weights scaled by ONE symbolic "
+               "positive number w; 1 outer iteration, 1-2 inner iterations; log uninterpreted; canonical rational functions")
+
+
+def _dvs(E, alg, R, sym, inner):
     vals = E.const(np.array([[3.0, 2.0], [0.0, 0.0]]))
     w = None
     if sym == "x":
@@ -229,3 +229,16 @@ def cp_apr_dense_vs_sparse(E, alg, R, sym, inner):
     Ma, oa = _apr(E, Xd, K0.copy(), alg, maxiters=1, maxinneriters=inner, printitn=0)
     Mb, ob_ = _apr(E, Xs, K0.copy(), alg, maxiters=1, maxinneriters=inner, printitn=0)
     _same_apr(E, Ma, oa, Mb, ob_, "dense vs sparse")
+
+
+@ob("C18", params=[dict(alg="mu", R=1, sym="w", inner=i) for i in (1, 2)], max_paths=6000, wall_s=300, validate=False, canon=True, bounds=_DVS_BOUNDS)
+def cp_apr_dense_vs_sparse(E, alg, R, sym, inner):
+    """CP-APR (MU) on a dense tensor and on the sparse tensor holding the same array: same model, KKT history, inner iteration counts, objective"""
+    _dvs(E, alg, R, sym, inner)
+
+
+@ob("C18", params=[dict(alg=a, R=1, sym="w", inner=1, _tier="thorough") for a in ("pdnr", "pqnr")], max_paths=20000, wall_s=900, validate=False, canon=True, gating=False,
+    bounds=_DVS_BOUNDS)
+def cp_apr_newton_dense_vs_sparse(E, alg, R, sym, inner):
+    """CP-APR (PDNR / PQNR) dense vs sparse: attempted, non-gating (row sub-problem solvers: degree-30+ rational functions per inner iteration)"""
+    _dvs(E, alg, R, sym, inner)
